@@ -185,7 +185,7 @@ PROPS = {
         "assumptions": ["servers unchanged between fetches (the `Env` is fixed)"],
     },
     "C04": {
-        "lean_modules": ["Props.Facts04", "Props.Facts04b", "Props.Gen04", "Props.GenT04"],
+        "lean_modules": ["Props.Facts04", "Props.Facts04b", "Props.Gen04", "Props.GenT04", "Props.Gen04w", "Props.GenT04w"],
         "groups": [{"name": "C04", "quick": 1200, "thorough": 30000, "workers": 8},
                    # redirect worlds (non-https hops, relative and cross-host Locations): what goes on the wire there
                    {"name": "C03", "quick": 400, "thorough": 10000, "workers": 8},
@@ -201,7 +201,7 @@ PROPS = {
                 "compared: result, the listener each connection arrived at and the raw bytes of every connection; non-trivial = at least one connection reached the simulator; distinct by op content",
         "trusted": ["crypto/tls, net, DNS (a TLS dial succeeds only for a syntactically valid host name or IP literal)",
                     "url.Parse rejects ASCII control bytes, so RequestURI()/Host of a parsed URL are CR/LF-free (evaluated on every generated URL through the request comparison)",
-                    "url.Values.Encode as an oracle for the webfinger query"],
+                    "url.Values.Encode as an oracle for the webfinger query (the Lean transcription of SplitN / Values.Encode / QueryEscape that the translated ResolveWebfinger targets is compared with it on every webfinger op: query_is_the_transcribed_encoding)"],
         "assumptions": ["TLS, DNS and socket behaviour are not modelled (partial)"],
         "shrink_budget": 4,
     },
@@ -445,9 +445,9 @@ MANIFEST_TEXT = {
         "technique": "Lean 4 proof (structural recursion on the redirect budget, cache soundness invariant) + differential correspondence against a TLS simulator",
     },
     "C04": {
-        "text": "Lean theorems about the byte template of the only connection.Write: for CR/LF-free request-URI, host and accept the bytes parse (with a strict HTTP/1.0 reader) as exactly one GET with a Host and an Accept header and nothing after the blank line; connections are opened only for https URLs on every hop. Tied to jtp.go twice: the statements of Get before the response is read - the cache key and lookup, the scheme test, the dial target, the deadline, the one connection.Write - are translated to Lean on every run (extract/go2lean18.go -> Generated/GoJtpfront.lean: a record of what is dialled, given a deadline, written and closed, in program order) and proved to write exactly the model's request to JoinHostPort(Hostname, Port or 443), never to dial for another scheme, and to be one step of the model's get (Props/Gen04.lean), and the theorems are restated about the code as translated (Props/GenT04.lean); and to jtp.go/client.go by recording the raw bytes of every connection at a TLS simulator (plus a plaintext canary) for hostile URLs and webfinger handles and comparing them with the template. Partial: TLS, DNS, sockets are not modelled.",
+        "text": "Lean theorems about the byte template of the only connection.Write: for CR/LF-free request-URI, host and accept the bytes parse (with a strict HTTP/1.0 reader) as exactly one GET with a Host and an Accept header and nothing after the blank line; connections are opened only for https URLs on every hop. Tied to jtp.go twice: the statements of Get before the response is read - the cache key and lookup, the scheme test, the dial target, the deadline, the one connection.Write - are translated to Lean on every run (extract/go2lean18.go -> Generated/GoJtpfront.lean: a record of what is dialled, given a deadline, written and closed, in program order) and proved to write exactly the model's request to JoinHostPort(Hostname, Port or 443), never to dial for another scheme, and to be one step of the model's get (Props/Gen04.lean), and the theorems are restated about the code as translated (Props/GenT04.lean); to client.go by translation as well: ResolveWebfinger and FetchURL are translated on every run (extract/go2lean23.go -> Generated/GoWebfinger.lean: the split of the handle, the URL as a fresh value per call, the arguments of the one call of jtp.Get, the loop over the JRD links, the singleflight key) and proved to ask for https://domain/.well-known/webfinger?resource=<query escaping of acct:user@domain> with the JRD accept string, to write exactly the request the differential check expects, and to read the answer as the model does (Props/Gen04w.lean), with C04 restated on the lookup (Props/GenT04w.lean: one call, one request per hop, the user part reaches the wire only inside the query escaping, which lets no delimiter through); and to jtp.go/client.go by recording the raw bytes of every connection at a TLS simulator (plus a plaintext canary) for hostile URLs and webfinger handles and comparing them with the template. Partial: TLS, DNS, sockets are not modelled.",
         "design_ref": "DESIGN.md §5 C04",
-        "note": "Trusted: Lean kernel; the translator extract/go2lean18.go and its semantics library (Model/GoNet.lean: a *url.URL as the record of what its accessors return, net.JoinHostPort transcribed); correspondence check (testing); net/url control-byte rejection; crypto/tls; DNS.",
+        "note": "Trusted: Lean kernel; the translator extract/go2lean18.go and its semantics library (Model/GoNet.lean: a *url.URL as the record of what its accessors return, net.JoinHostPort transcribed); the translator extract/go2lean23.go and its semantics library (Model/GoUrl.lean: a composite literal as a fresh URL, RequestURI/Hostname/Port/QueryEscape/Values.Encode transcribed from net/url, strings.SplitN, singleflight as one execution per key); correspondence check (testing); net/url control-byte rejection; crypto/tls; DNS.",
         "technique": "Lean 4 proof (byte-level request contract) + differential correspondence on recorded connection bytes",
     },
     "C05": {
